@@ -348,7 +348,8 @@ func runC17Stop(s *core.Sim, w *SW, first, top uint64, plan *[]string, obs *int6
 			rs = append(rs, run{next, next + ln - 1}) // one contiguous chain, split among the writers
 			next += ln
 		}
-		*plan = append(*plan, fmt.Sprintf("writer%d %v", wi, rs))
+		syncAfterAppend := s.Tape.Coin("writer-syncs", 2, 3)
+		*plan = append(*plan, fmt.Sprintf("writer%d %v sync=%v", wi, rs, syncAfterAppend))
 		tasks = append(tasks, s.Go(fmt.Sprintf("writer%d", wi), func() {
 			for _, r := range rs {
 				c, cancel := context.WithTimeout(context.Background(), time.Minute)
@@ -357,9 +358,15 @@ func runC17Stop(s *core.Sim, w *SW, first, top uint64, plan *[]string, obs *int6
 					mu.Lock()
 					for h := r.from; h <= r.to; h++ {
 						appended[h] = true
+						if !stopCalled {
+							acked[h] = true // "everything whose Append returned before Stop"
+						}
 					}
 					mu.Unlock()
-					err = w.St.Sync(c)
+					// (some writers go on to Sync, which may still be in flight when Stop comes; others just append)
+					if syncAfterAppend {
+						err = w.St.Sync(c)
+					}
 				}
 				cancel()
 				if err != nil {
@@ -476,7 +483,7 @@ func runC17Stop(s *core.Sim, w *SW, first, top uint64, plan *[]string, obs *int6
 			g, err := w.St.Get(c, x.Hash())
 			// (an acknowledged header above a gap left by a slower writer is stored, but not yet below Head)
 			if err != nil || !simhdr.Equal(g, x) {
-				s.Violate("acked-append-lost-after-stop", nil, "Append+Sync of %d had returned before Stop was called, after the restart Get(hash)=%v,%v (Tail=%d Head=%d) [%s; %v]", h, g, err, tl.Height(), hd.Height(), w.cfg(), *plan)
+				s.Violate("acked-append-lost-after-stop", nil, "Append of %d had returned before Stop was called, after the restart Get(hash)=%v,%v (Tail=%d Head=%d) [%s; %v]", h, g, err, tl.Height(), hd.Height(), w.cfg(), *plan)
 				return
 			}
 		}
